@@ -58,6 +58,13 @@ def modelDepthRange : Nat := 1000
 theorem gen_depth_limit :
     (JsonxVal.maxNestingDepth.map fun d => decide (modelDepthRange ≤ d)).getD true = true := by decide
 
+/-- the nesting counter counts the *current* nesting: `p.depth++` happens only in
+    `enterNested`, and every arm of `parseValue` that enters a level leaves it again
+    (`p.depth--`) exactly once.  With a missing decrement the counter would count every
+    container ever opened and a wide, shallow document would hit the limit — behaviour
+    the model (which has no counter) does not have. -/
+theorem gen_depth_balanced : JsonxVal.depthBalanced = true := by decide
+
 /-- all hypotheses at once, for the theorems -/
 theorem gen_cfg_ok : CfgOK genCfg := by decide
 
